@@ -557,7 +557,7 @@ Print Assumptions C07_selection_group_guard_refuted.
 (* ---------------------------------------------------------------- round 8: generated call sequences, index selection, pvFill *)
 From C07 Require Gen_Protocol.
 From Coq Require Import String.
-From C07 Require Import ProtoSyntax ProtoSem ProtoProofs FitSem UHashSem UHashProofs FillModel.
+From C07 Require Import ProtoSyntax ProtoSem ProtoProofs FitSem UHashSem UHashProofs FillModel MHashSem MHashProofs SelectModel.
 Local Open Scope string_scope.
 
 (* The statement trees of DataIndexes::AddRaw / RemoveRaw / UpdateRaw(old,new) / UpdateRaw(raw, offset, item, assigner) are
@@ -684,3 +684,52 @@ Theorem C07_fill_without_clear_refuted :
   exists fl rows, NoDup rows /\ f_ok (fst (copy_construct false fl rows)) = false.
 Proof. exact fill_without_clear_refuted. Qed.
 Print Assumptions C07_fill_without_clear_refuted.
+
+(* ---------------------------------------------------------------- round 9 *)
+
+(* MultiHash member functions as dumped from the source = the hand model's functions *)
+Theorem C07_generated_multihash_reject_accept :
+  forall R ct m,
+  mrun R ct Gen_Protocol.M_AcceptAdd m menv0 = Some (m_accept_add m, None) /\
+  mrun R ct Gen_Protocol.M_RejectRemove m menv0 = Some (m_reject_remove m, None) /\
+  (gtags_nodup m -> padd_occupied m -> mrun R ct Gen_Protocol.M_RejectAdd m menv0 = Some (m_reject_add m, None)).
+Proof. exact gen_M_simple. Qed.
+Print Assumptions C07_generated_multihash_reject_accept.
+
+(* PrepareRemove with the scan for the other content-equal key (2211fdb) *)
+Theorem C07_generated_multihash_prepare_remove :
+  forall R ct m raw, mprem m = None ->
+  mrun R ct Gen_Protocol.M_PrepareRemove m (mupd menv0 "raw" (MVraw raw)) = Some (m_prepare_remove true R ct m raw, None).
+Proof. exact gen_M_PrepareRemove. Qed.
+Print Assumptions C07_generated_multihash_prepare_remove.
+
+(* Find with the empty bounds for an absent key (95ed81f) *)
+Theorem C07_generated_multihash_find :
+  forall R ct m k,
+  mrun R ct Gen_Protocol.M_Find m (mupd (mupd menv0 "hashTupleKey" (MVkey k)) "version" MVversion)
+  = Some (m, Some (MVbounds (find_multi R ct m k))).
+Proof. exact gen_M_Find. Qed.
+Print Assumptions C07_generated_multihash_find.
+
+(* DataTable::pvFill as dumped from the source (with mRaws.Clear() in the handler, 91ea186) = the model C07_fill_failure_safe is about *)
+Theorem C07_generated_pvFill_is_model :
+  forall fl rows st, fill_tree Gen_Protocol.T_pvFill fl rows st = Some (fill true fl rows 0 st).
+Proof. exact generated_pvFill. Qed.
+Print Assumptions C07_generated_pvFill_is_model.
+
+(* pvSelect / pvSelectRec: through the index chosen by the generated GetFit*Index functions (or none), the equalities on index
+   columns as the key and the others wrapped around the row filter, the result is the brute-force filter of the rows *)
+Theorem C07_pvselect_is_brute_force :
+  forall R ct s rs q eqs f,
+  (forall k, R k k = true) -> consistent ct rs s ->
+  NoDup (map fst eqs) -> (forall c, In c q <-> In c (map fst eqs)) ->
+  Permutation (pv_select R ct s rs q eqs f) (filter (fun r => sat_eqs ct eqs r && f r) rs).
+Proof. exact pv_select_is_scan. Qed.
+Print Assumptions C07_pvselect_is_brute_force.
+
+(* ... and the dumped pvSelect (unique index first, then multi, then the scan with pvIsSatisfied && rowFilter) is that model *)
+Theorem C07_generated_pvSelect_is_model :
+  forall R ct s rs q eqs f,
+  sel_stmts R ct s rs q eqs f Gen_Protocol.T_pvSelect (fun _ => None) None = Some (pv_select R ct s rs q eqs f).
+Proof. exact generated_pvSelect. Qed.
+Print Assumptions C07_generated_pvSelect_is_model.
